@@ -70,7 +70,12 @@ pub fn execute_program(
             "Error: No program set, call prog_set() to load one",
         ))?,
     };
-    let stack = vec![0u8; ebpf::STACK_SIZE];
+    // The stack is an array of 8-byte slots below r10: allocate it as such, so that r10 is 8-byte
+    // aligned whatever the allocator does with byte buffers (an atomic add on a stack slot is
+    // refused when its address is not a multiple of its width).
+    let stack_slots = vec![0u64; ebpf::STACK_SIZE / 8];
+    let stack: &[u8] =
+        unsafe { core::slice::from_raw_parts(stack_slots.as_ptr() as *const u8, ebpf::STACK_SIZE) };
     let mut stacks = [StackFrame::new(); MAX_CALL_DEPTH];
     let mut stack_frame_idx = 0;
     #[cfg(feature = "verif-hooks")]
